@@ -476,7 +476,8 @@ func resumeCoq(op Op) string {
 	return "(RMsg " + hx.Str(op.Text) + ")"
 }
 
-func caseCoq(h *History, ex *Exec) string {
+// caseCoq renders one history with all its executions; executions with identical token streams share a stream
+func caseCoq(h *History, execs []*Exec) string {
 	var trig string
 	switch h.Trigger.Kind {
 	case "msg":
@@ -486,23 +487,38 @@ func caseCoq(h *History, ex *Exec) string {
 	default:
 		trig = "TManual"
 	}
-	ops := make([]string, 0, len(h.Ops))
-	for i, op := range h.Ops {
-		ops = append(ops, fmt.Sprintf("(%s, %s)", hx.Bool(i < len(ex.Pattern) && ex.Pattern[i]), resumeCoq(op)))
+	rs := make([]string, 0, len(h.Ops))
+	for _, op := range h.Ops {
+		rs = append(rs, resumeCoq(op))
 	}
-	obs := make([]string, 0, len(ex.Calls))
-	for _, c := range ex.Calls {
-		obs = append(obs, hx.List(callTokens(c), func(i int) string { return fmt.Sprint(i) }))
+	var streams []string
+	index := map[string]int{}
+	var runs []string
+	for _, ex := range execs {
+		obs := make([]string, 0, len(ex.Calls))
+		for _, c := range ex.Calls {
+			obs = append(obs, hx.List(callTokens(c), func(i int) string { return fmt.Sprint(i) }))
+		}
+		st := "[" + strings.Join(obs, ";\n    ") + "]"
+		k, ok := index[st]
+		if !ok {
+			k = len(streams)
+			index[st] = k
+			streams = append(streams, st)
+		}
+		pat := make([]bool, len(h.Ops))
+		copy(pat, ex.Pattern)
+		runs = append(runs, fmt.Sprintf("(%s, %d%%nat)", hx.List(pat, hx.Bool), k))
 	}
-	return fmt.Sprintf("{| pc_assets := %s;\n  pc_trigger := %s; pc_flow := %s; pc_batch := %s;\n  pc_ops := [%s];\n  pc_obs := [%s]%%N |}",
-		h.Assets.Coq(), trig, hx.N(h.Trigger.Flow), hx.Bool(h.Trigger.Batch), strings.Join(ops, ";\n    "), strings.Join(obs, ";\n    "))
+	return fmt.Sprintf("{| pc_assets := %s;\n  pc_trigger := %s; pc_flow := %s; pc_batch := %s;\n  pc_resumes := [%s];\n  pc_streams := [%s]%%N;\n  pc_runs := [%s] |}",
+		h.Assets.Coq(), trig, hx.N(h.Trigger.Flow), hx.Bool(h.Trigger.Batch), strings.Join(rs, "; "), strings.Join(streams, ";\n   "), strings.Join(runs, "; "))
 }
 
 func runCFL(o *hx.Opts, rnd *hx.Rand, res *hx.Result) {
 	n := o.Count(150, 2000)
 	var file *hx.CoqFile
 	nfile := 0
-	const shard = 80
+	const shard = 40
 	flush := func() {
 		if file != nil {
 			file.Add("].\nDefinition M := Eval vm_compute in mismatches cases.\nPrint M.")
@@ -545,25 +561,34 @@ func runCFL(o *hx.Opts, rnd *hx.Rand, res *hx.Result) {
 		if i%53 == 0 {
 			res.Sample(map[string]any{"scenario": sc.Name, "input": sc.Input, "calls": summarizeExec(sr.base)})
 		}
+		var good []*Exec
 		for _, ex := range sr.execs {
-			if ex.Harness != "" || len(ex.Calls) == 0 {
-				continue
+			if ex.Harness == "" && len(ex.Calls) > 0 {
+				good = append(good, ex)
 			}
-			if file == nil {
-				file = hx.NewCoqFile(fmt.Sprintf("cases_C02_%03d.v", nfile), header)
-				nfile++
-			}
-			sep := ";"
-			if file.N == 0 {
-				sep = " "
-			}
-			file.Add(sep + " " + caseCoq(h, ex))
-			res.Cases = append(res.Cases, hx.Case{File: file.Name, Index: file.N,
-				Input: map[string]any{"scenario": sc.Name, "input": sc.Input, "restart_pattern": patStr(ex.Pattern)}, Impl: summarizeExec(ex)})
-			file.N++
-			if file.N >= shard {
-				flush()
-			}
+		}
+		if len(good) == 0 {
+			continue
+		}
+		if file == nil {
+			file = hx.NewCoqFile(fmt.Sprintf("cases_C02_%03d.v", nfile), header)
+			nfile++
+		}
+		sep := ";"
+		if file.N == 0 {
+			sep = " "
+		}
+		file.Add(sep + " " + caseCoq(h, good))
+		pats := []string{}
+		for _, ex := range good {
+			pats = append(pats, patStr(ex.Pattern))
+		}
+		res.Cases = append(res.Cases, hx.Case{File: file.Name, Index: file.N,
+			Input: map[string]any{"scenario": sc.Name, "input": sc.Input, "restart_patterns": pats}, Impl: summarizeExec(sr.base)})
+		res.Dist(fmt.Sprintf("cfl:executions-compared-with-model=%d", len(good)))
+		file.N++
+		if file.N >= shard {
+			flush()
 		}
 	}
 	flush()
